@@ -409,6 +409,7 @@ type Contract struct {
 	Allows   []*Clause
 	LoopInv  map[int][]*Clause
 	LoopMod  map[int][]string
+	LoopExit map[int][]*Clause // "loop N: exit [label] expr": must hold on every edge leaving the loop
 	Props    []string
 	Inline   bool
 	Trusted  bool
@@ -653,6 +654,11 @@ func addClause(c *Contract, cl *Clause) {
 		c.LoopInv[cl.Loop] = append(c.LoopInv[cl.Loop], cl)
 	case "loopmodifies":
 		c.LoopMod[cl.Loop] = append(c.LoopMod[cl.Loop], cl.Names...)
+	case "loopexit":
+		if c.LoopExit == nil {
+			c.LoopExit = map[int][]*Clause{}
+		}
+		c.LoopExit[cl.Loop] = append(c.LoopExit[cl.Loop], cl)
 	case "props":
 		c.Props = cl.Names
 	case "inline":
@@ -837,6 +843,16 @@ func parseClause(word, rest string) (*Clause, error) {
 					cl.Names = append(cl.Names, n)
 				}
 			}
+		case "exit":
+			cl.Kind = "loopexit"
+			rest = r
+			cl.Src = r
+			label()
+			e, err := ParseSpecExpr(rest)
+			if err != nil {
+				return nil, err
+			}
+			cl.Expr = e
 		case "decreases":
 			cl.Kind = "decreases"
 			e, err := ParseSpecExpr(r)
